@@ -189,6 +189,17 @@ func H_C17_diff() {
 		}
 		ra, rb := vReadAll(a), vReadAll(b)
 		vAssert(len(ra) == 0 && len(rb) == 0, "dropped-family-data-gone-on-both-engines")
+		// rows emptied by the drop: whatever SampleRowKeys makes of them, both engines agree on
+		// the final sample (it does not depend on the random draws)
+		sa, sb := &vSampleStream{}, &vSampleStream{}
+		ea := a.SampleRowKeys(&btpb.SampleRowKeysRequest{TableName: vTable}, sa)
+		eb := b.SampleRowKeys(&btpb.SampleRowKeysRequest{TableName: vTable}, sb)
+		vAssert(vCodeOf(ea) == vCodeOf(eb), "sample:same-status-from-both-engines")
+		vAssert((len(sa.msgs) == 0) == (len(sb.msgs) == 0), "sample:both-or-neither-engine-reports-samples")
+		if len(sa.msgs) > 0 && len(sb.msgs) > 0 {
+			la, lb := sa.msgs[len(sa.msgs)-1], sb.msgs[len(sb.msgs)-1]
+			vAssert(len(la.RowKey) == len(lb.RowKey) && vBytesEq(la.RowKey, lb.RowKey), "sample:same-final-sample-from-both-engines")
+		}
 		vReach("c17-recreate")
 	}
 	// then a DropRowRange by prefix and a final read
